@@ -87,6 +87,7 @@ Judge_union_rt(c) ==
       enc == Encode(t, d, names, o)
       conf == Conforms(t, d, names, o)
       nn == NormN(t, d, names, o, TRUE)
+      no == NormNO(t, d, names, o)
   IN IF Ambiguous(t, d, names) THEN << Cl("C09.index", "unspec") >>
      ELSE IF ~conf THEN
         \* only hinted data are offered non-conforming on purpose: a hint naming no branch must be an error
@@ -100,7 +101,13 @@ Judge_union_rt(c) ==
              IF ~nn.ok \/ ~w.ok \/ ~c.named.ok THEN Cl("C09.closure", "skip")
              ELSE LET re == Encode(t, nn.v, names, o) IN
                   IF ~re.ok \/ re.b # enc.b THEN Cl("C09.closure", "skip")
-                  ELSE Tri("C09.closure", c.rewrite.ok /\ c.rewrite.bytes = w.bytes) >>
+                  ELSE Tri("C09.closure", c.rewrite.ok /\ c.rewrite.bytes = w.bytes),
+             \* the *_override variant: a pair only where the union has more than one named type; same closure
+             IF ~no.ok \/ ~w.ok THEN Cl("C09.named_override", "skip") ELSE Tri("C09.named_override", c.named_o.ok /\ VEq(c.named_o.v, no.v)),
+             IF ~no.ok \/ ~w.ok \/ ~c.named_o.ok THEN Cl("C09.closure_override", "skip")
+             ELSE LET re == Encode(t, no.v, names, o) IN
+                  IF ~re.ok \/ re.b # enc.b THEN Cl("C09.closure_override", "skip")
+                  ELSE Tri("C09.closure_override", c.rewrite_o.ok /\ c.rewrite_o.bytes = w.bytes) >>
 
 \* op = "generate": c.schema, c.n, c.values <<V>> | c.exc, c.rts << [ok, bytes, back] >>, c.valid << BOOLEAN >>, c.filerecs [ok, recs]
 Judge_generate(c) ==
